@@ -33,10 +33,11 @@ class Run:
             p = param.Parameter(default=('init',), allow_refs=True)
 
         self.S, self.Tcls = S(), T
+        self.S2 = S()
         self.T = None
         if not ctor_first:
             self.T = T()
-            self.T.param.watch(lambda e: self.seen.append(e.new), 'p')
+            self.T.param.watch(self.on_p, 'p')
         self.shared = None
         if shared_fn:
             run = self
@@ -45,6 +46,12 @@ class Run:
                 k = run.current_k
                 return ('v', k, await run.fut(('c', k)))
             self.shared = shared
+
+    def on_p(self, e):
+        self.seen.append(e.new)
+        if isinstance(e.new, tuple) and e.new[0] == 'G' and e.new[2] == 0:
+            # a watcher answering the first value of an overridable generator with a plain assignment: that assignment is the latest one
+            self.T.p = ('w', e.new[1])
 
     def fut(self, fid):
         f = self.loop.create_future()
@@ -64,7 +71,7 @@ class Run:
             if self.T is None:
                 # the first assignment of the program is made through the constructor
                 self.T = self.Tcls(p=value)
-                self.T.param.watch(lambda e: self.seen.append(e.new), 'p')
+                self.T.param.watch(self.on_p, 'p')
             else:
                 self.T.p = value
         if kind == 'p':
@@ -92,6 +99,17 @@ class Run:
                 await run.fut(('b', k, n))
                 return ('b', k, s)
             put(param.bind(bound, self.S.param.s))
+        elif kind == 'G':
+            async def agen2():
+                await run.fut(('G', k, 0))
+                yield ('G', k, 0)
+                await run.fut(('G', k, 1))
+                yield ('G', k, 1)
+            put(agen2)
+        elif kind == 'r':
+            # a synchronous reference (must supersede whatever is pending, like a plain value)
+            self.S2.s = ('r', k)
+            put(self.S2.param.s)
         elif kind == 'u':
             self.S.s = self.S.s + 1
 
@@ -146,24 +164,26 @@ class RxRun(Run):
         self.loop = VLoop().install()
         self.futs, self.order, self.next, self.seen, self.assigned_at = {}, [], 0, [], []
         self.root_val = 0
+        self.extra_val = 0
         self.calls = 0
         run = self
         if pipe == 'coro':
-            async def f(x):
+            async def f(x, e):
                 n = run.calls
                 run.calls += 1
                 await run.fut(('r', n))
-                return ('r', x)
+                return ('r', x, e)
         else:
-            async def f(x):
+            async def f(x, e):
                 n = run.calls
                 run.calls += 1
                 await run.fut(('r', n, 0))
-                yield ('r', x, 0)
+                yield ('r', x, e, 0)
                 await run.fut(('r', n, 1))
-                yield ('r', x, 1)
+                yield ('r', x, e, 1)
         self.src = param.rx(0)
-        self.expr = self.src.rx.pipe(f)
+        self.extra = param.rx(0)          # a second input, passed to the piped function as an extra argument
+        self.expr = self.src.rx.pipe(f, self.extra)
         if watch:
             self.expr.rx.watch(lambda v: self.seen.append(v))
         self.reads = []
@@ -176,6 +196,9 @@ class RxRun(Run):
         if kind == 'U':
             self.root_val += 1
             self.src.rx.value = self.root_val
+        elif kind == 'E':
+            self.extra_val += 1
+            self.extra.rx.value = self.extra_val
         else:
             self.reads.append(self.expr.rx.value)
 
@@ -188,8 +211,8 @@ class RxRun(Run):
             pass
         if act[0] != 'A':
             for v in self.seen[before:]:
-                if isinstance(v, tuple) and v[0] == 'r' and v[1] < self.root_val and self.stale is None:
-                    self.stale = (v, self.root_val, act)
+                if isinstance(v, tuple) and v[0] == 'r' and (v[1] < self.root_val or v[2] < self.extra_val) and self.stale is None:
+                    self.stale = (v, (self.root_val, self.extra_val), act)
 
 
 def cost(act):
@@ -198,7 +221,7 @@ def cost(act):
 
 def tag_index(v):
     """assignment index a delivered value belongs to (None for the initial value)"""
-    if isinstance(v, tuple) and len(v) >= 2 and v[0] in ('v', 'g', 'b', 'p'):
+    if isinstance(v, tuple) and len(v) >= 2 and v[0] in ('v', 'g', 'b', 'p', 'r', 'G', 'w'):
         return v[1]
     return None
 
@@ -221,21 +244,25 @@ class C10(Harness):
     def cases(self, tier):
         out = []
         B = 2 if tier == 'quick' else 3
-        kinds = ['c', 'g', 'p', 'b', 'u']
+        kinds = ['c', 'g', 'p', 'b', 'u', 'r', 'G']
         for n in ((1, 2, 3) if tier == 'quick' else (1, 2, 3, 4)):
             for prog in itertools.product(kinds, repeat=n):
                 if 'u' in prog and 'b' not in prog[:prog.index('u')]:
                     continue
-                if not any(k in prog for k in 'cgb'):
+                if not any(k in prog for k in 'cgbG'):
                     continue
+                if n >= 3 and tier == 'quick' and sum(k in 'rG' for k in prog) > 1:
+                    continue          # (quick: at most one of the two newer kinds in the longest programs)
                 out.append({'program': list(prog), 'shared_fn': False, 'budget': B})
-                if prog[0] in 'cgb' and n <= 3:
+                if prog[0] in 'cgbG' and n <= 3:
                     out.append({'program': list(prog), 'shared_fn': False, 'budget': max(1, B - 1), 'ctor_first': True})
                 if prog.count('c') >= 2:
                     out.append({'program': list(prog), 'shared_fn': True, 'budget': B})
         for n in ((1, 2, 3) if tier == 'quick' else (1, 2, 3, 4)):
-            for prog in itertools.product('UR', repeat=n):
-                if 'U' not in prog:
+            for prog in itertools.product('URE', repeat=n):
+                if 'U' not in prog and 'E' not in prog:
+                    continue
+                if 'E' in prog and n > 3:
                     continue
                 for pipe in ('coro', 'agen'):
                     for watch in (True, False):
@@ -259,6 +286,10 @@ class C10(Harness):
                 last = ('g', k, 1)
             elif kind == 'b':
                 last = ('b', k, s)
+            elif kind == 'r':
+                last = ('r', k)
+            elif kind == 'G':
+                last = ('w', k)       # the watcher's plain answer to the first value ends the generator's reign
         return last
 
     def run_case(self, case):
@@ -288,6 +319,12 @@ class C10(Harness):
                     if ti is not None and ti < j and program[j] != 'u':
                         return V('superseded-result-applied', 'program %s schedule %r: value %r of assignment %d was applied after assignment %d (%s) had been made; '
                                  'values seen: %r' % (program, sched, v, ti, j, program[j], r.seen), later=program[j], earlier=program[ti], **key)
+            for i, v in enumerate(r.seen):
+                if isinstance(v, tuple) and v[0] == 'w':
+                    late = [x for x in r.seen[i + 1:] if isinstance(x, tuple) and x[0] == 'G' and x[1] == v[1]]
+                    if late:
+                        return V('superseded-result-applied', 'program %s schedule %r: the generator of assignment %d delivered %r after a watcher had overridden it with '
+                                 'the plain value %r; values seen: %r' % (program, sched, v[1], late[0], v, r.seen), later='w', earlier='G', **key)
             return None
 
         stack = [([], 0)]
@@ -333,7 +370,7 @@ class C10(Harness):
         vs = []
         stats = {'schedules': 0, 'nodes': 0}
         key = dict(program='rx:' + ''.join(program), pipe=case['pipe'], watch=case['watch'])
-        final = ('r', program.count('U')) if case['pipe'] == 'coro' else ('r', program.count('U'), 1)
+        final = ('r', program.count('U'), program.count('E')) if case['pipe'] == 'coro' else ('r', program.count('U'), program.count('E'), 1)
         stack = [([], 0)]
         while stack and len(vs) < 3:
             sched, used = stack.pop()
@@ -348,7 +385,7 @@ class C10(Harness):
                     continue
                 # safety: the completion of a superseded awaitable is never applied after a newer root update
                 if r.stale is not None:
-                    vs.append(V('superseded-result-applied', 'rx program %s schedule %r: during %r the watcher received %r although the root had already been updated to %r; seen: %r' % (
+                    vs.append(V('superseded-result-applied', 'rx program %s schedule %r: during %r the watcher received %r although the inputs (root, extra argument) had already been updated to %r; seen: %r' % (
                         program, sched, r.stale[2], r.stale[0], r.stale[1], r.seen), **key))
                     continue
                 acts = r.enabled(B - used)
